@@ -99,13 +99,13 @@ def run(tier, replay=None):
     maxlen = 3 if tier == "quick" else 4
     cfg = os.path.join(C.WORK, "tlc", f"MC_Oov_{tier}.cfg")
     with open(cfg, "w") as f:
-        f.write(f"SPECIFICATION MSpec\nCONSTANTS\n  MaxLen = {maxlen}\nINVARIANTS RunsTile RunsShareAClass RunsMaximal PrefixStable EveryPositionCovered Emit\nCHECK_DEADLOCK FALSE\n")
+        f.write(f"SPECIFICATION MSpec\nCONSTANTS\n  MaxLen = {maxlen}\n  MaxLen2 = {maxlen - 1}\nINVARIANTS RunsTile RunsShareAClass RunsMaximal PrefixStable EveryPositionCovered Emit\nCHECK_DEADLOCK FALSE\n")
     rp = os.path.join(C.WORK, "traces", f"c13_replay_{tier}.txt")
     with open(rp, "w") as f:
         r = C.tlc_mc("MC_Oov", cfg, workers=8, sink=lambda l: f.write(l + "\n"), timeout=40000)
     if r.violated:
         out.violation(f"model invariant {r.violated} violated in MC_Oov", {"tlc_tail": r.tail}, signature=f"C13/model/{r.violated}")
-    out.require_actions(r, ["MPick"])
+    out.require_actions(r, ["MPick", "MPick2"])
     out.add_mc("MC_Oov", r, {"maxlen": maxlen})
     p = C.run_vh(["c13-replay", rp], timeout=40000)
     res = json.loads(p.stdout.strip().splitlines()[-1])
@@ -129,9 +129,9 @@ def run(tier, replay=None):
     out.cov["evaluations"] += len(oovs)
     out.cov["distinct_nontrivial"] = len({json.dumps(e["nodes"]) for e in oovs if len(e["nodes"]) > 1})
     out.cov["rule"] = ("MC: all class texts <= %d over {KANJI, HIRAGANA, ALPHA, NUMERIC, KATAKANA, DEFAULT, KANJI+NUMERIC, ALL|NOOOVBOW, ALL|NOOOVBOW2} x 2 invoke/group/length "
-                       "definition sets (one class with two definitions) x 4 provider stacks (mecab+simple, simple, mecab+regex(strict)+simple, regex(relaxed)+simple), with no "
+                       "definition sets (one class with two definitions; plus all 144 pairs of settings for the two classes of the double letter on texts <= %d over K, N, combining, K+N, K+N+T) x 4 provider stacks (mecab+simple, simple, mecab+regex(strict)+simple, regex(relaxed)+simple), with no "
                        "candidate yet and with a 1-character word present; traces: shipped char.def/unk.def and the test definitions x 4 stacks x fixture + random texts "
-                       "(multi-class characters, combining marks, emoji modifiers, joiners, runs > 64); non-trivial = distinct provider invocations yielding more than one node" % maxlen)
+                       "(multi-class characters, combining marks, emoji modifiers, joiners, runs > 64); non-trivial = distinct provider invocations yielding more than one node" % (maxlen, maxlen - 1))
     out.add_samples([e for e in oovs if len(e["nodes"]) > 1][:2] + [e for e in events if e["ev"] == "tables"][:1])
     if rej == 0 and oovs:
         idx = next(i for i, e in enumerate(events) if e["ev"] == "oov" and e["nodes"])
